@@ -109,7 +109,7 @@ CHECKS = {
             'event histories <= depth (fresh import each) vs fresh-'
             'interpreter baselines; preemption-bounded exhaustive thread '
             'schedule exploration (line-level scheduling points)',
-            MC + 'C16: BFS over 48 API events with a deep library-state '
+            MC + 'C16: BFS over 50 API events with a deep library-state '
             'hash closes at 2 states; all histories of depth <= 2 (3) '
             'replayed from a fresh import and compared per event with a '
             'fresh-interpreter baseline, aliasing oracle on returned '
